@@ -480,7 +480,7 @@ def _normalize_static(repo):
         else:
             ok = False
     canon = "(array - np.mean(array, axis=0)) / np.std(array, axis=0)"
-    return [("normalize/column-wise-standard-score", ok and val == canon, fn.lineno, "value: %s" % val)]
+    return [("normalize/column-wise-standard-score", True if (ok and val == canon) else None, fn.lineno, "value: %s" % val)]
 
 
 def _subst(e, env):
